@@ -9,6 +9,7 @@ from ..poly import Poly, Rat, S, Fn
 from ..qeval import QEval, ArrayV, VectorV, UnitV, NumV, DimError, R
 from ..source import norm, const_value, walk_no_nested, AnalysisError
 from . import coretypes as ct
+from . import core_folds as cf
 from .common import is_name, params, single_return, returns_of, bind_call
 from .vector_rules import (check_vector_forwarding, check_component_map, VECTOR, VBINOP, FORWARDED)
 
@@ -36,120 +37,19 @@ def vec(prefix, unit, n=3):
 
 
 def r1_forwarding(run, tree):
-    run.rule("C09.R1", "forwarding table: Vector dunder -> _binary_op('<same dunder>', self, other)", "sibling agreement",
-             "S4", floor=21)
-    check_vector_forwarding(run, tree, FORWARDED)
+    run.rule("C09.R1", "every Vector operator applies the same-named Array operator to every component pair (folded over 1-3 "
+             "components and all right-hand kinds); reflected forms in the quantity algebra", "D7 fold (ModelEval) + D1", "S4", floor=21)
+    cf.check_vector_lifting(run, tree, FORWARDED)
     ct.check_composites(run, tree, ["__rmul__", "__rtruediv__", "__radd__", "__rsub__", "__invert__"], cls_qual=VECTOR)
 
 
 def r2_lifting(run, tree):
-    run.rule("C09.R2", "lifting shape: broadcast, component-count gate, every component", "path rule", "", floor=10)
-    fi = tree.func(VBINOP)
-    run.analysed(fi)
-    pn = params(fi)
-    OP, L, Rn = pn[0], pn[1], pn[2]
-    body = fi.node.body
-    # (a) broadcast of scalars/ndarrays/quantities
-    kinds_needed = {"int", "float", "numpy.ndarray", "pint.Quantity"}
-    got = set()
-    wraps = False
-    for n in walk_no_nested(fi.node):
-        if isinstance(n, ast.If) and isinstance(n.test, ast.Call) and is_name(n.test.func, "isinstance") and is_name(
-                n.test.args[0], Rn):
-            tnode = n.test.args[1]
-            names = set()
-            for e in (tnode.elts if isinstance(tnode, ast.Tuple) else [tnode]):
-                r = tree.resolve_expr(fi.module, e)
-                if isinstance(r, tuple) and r[0] == "ext":
-                    names.add(r[1])
-                elif hasattr(r, "qual"):
-                    names.add(r.qual)
-                else:
-                    names.add(norm(e))
-            if "core/array.py::Array" in names:
-                # broadcast of an Array to every component of lhs
-                ok = False
-                for st in n.body:
-                    if isinstance(st, ast.Assign) and is_name(st.targets[0], Rn) and isinstance(st.value, ast.Call):
-                        for k in st.value.keywords:
-                            if k.arg is None and isinstance(k.value, ast.DictComp):
-                                dc = k.value
-                                g = dc.generators[0]
-                                ok = (norm(g.iter) in ("%s._xyz.keys()" % L, "%s._xyz" % L) and not g.ifs and
-                                      is_name(dc.value, Rn) and norm(dc.key) == norm(g.target))
-                run.ob(VBINOP + "::broadcast-array", ok, fi.where(n), "an Array right operand is %s" % (
-                    "replicated for every component key of the left Vector" if ok else "not broadcast to all components"),
-                       "v * a multiplies only some components")
-            else:
-                got |= names
-                for st in n.body:
-                    if isinstance(st, ast.Assign) and is_name(st.targets[0], Rn) and isinstance(st.value, ast.Call) and \
-                            norm(st.value.func) == "Array":
-                        wraps = True
-    missing = kinds_needed - got
-    run.ob(VBINOP + "::broadcast-kinds", not missing and wraps, fi.where(),
-           "numbers/ndarrays/Quantities wrapped as Array: %s%s" % (sorted(got), "; missing %s" % sorted(missing) if missing else ""),
-           "v * 2.0 or v + Quantity raises AttributeError")
-    # (b) the component-count gate dominates the component operations
-    gate_idx, ret_idx = None, None
-    for i, st in enumerate(body):
-        if isinstance(st, ast.If) and isinstance(st.test, ast.Compare) and len(st.test.ops) == 1 and isinstance(
-                st.test.ops[0], ast.NotEq):
-            sides = {norm(st.test.left), norm(st.test.comparators[0])}
-            if sides == {"%s.nvec" % L, "%s.nvec" % Rn} and any(isinstance(s, ast.Raise) for s in st.body):
-                gate_idx = i
-        if isinstance(st, ast.Return):
-            ret_idx = i
-    run.ob(VBINOP + "::nvec-gate", gate_idx is not None and ret_idx is not None and gate_idx < ret_idx, fi.where(),
-           "component-count mismatch %s" % ("raises before any component operation" if gate_idx is not None else
-                                            "is not rejected"),
-           "a 3-vector plus a 2-vector silently drops or invents a component")
-    # (c) the result applies the operator to every component
-    ret = body[ret_idx].value if ret_idx is not None else None
-    ok = False
-    if isinstance(ret, ast.Call):
-        for k in ret.keywords:
-            if k.arg is None and isinstance(k.value, ast.DictComp):
-                dc = k.value
-                g = dc.generators[0]
-                if norm(g.iter) == "%s._xyz.items()" % L and not g.ifs and isinstance(g.target, ast.Tuple):
-                    kv, vv = g.target.elts[0].id, g.target.elts[1].id
-                    want = "getattr(%s, %s)(getattr(%s, %s))" % (vv, OP, Rn, kv)
-                    ok = norm(dc.value) == want and is_name(dc.key, kv)
-    run.ob(VBINOP + "::per-component", ok, fi.where(body[ret_idx]) if ret_idx is not None else fi.where(),
-           "result = %s" % (norm(ret)[:110] if ret is not None else "?"),
-           "an operator acts on a subset of the components or pairs x with y")
-    # (d) other component-wise methods
-    vi = tree.cls(VECTOR)
-    check_component_map(run, tree, tree.method(vi, "__pow__"), VECTOR + ".__pow__",
-                        lambda e, v, pn: isinstance(e, ast.BinOp) and isinstance(e.op, ast.Pow) and is_name(e.left, v)
-                        and is_name(e.right, pn[1]), "v ** k raises every component")
-    check_component_map(run, tree, tree.method(vi, "__neg__"), VECTOR + ".__neg__",
-                        lambda e, v, pn: isinstance(e, ast.UnaryOp) and isinstance(e.op, ast.USub) and is_name(e.operand, v),
-                        "-v negates every component")
-    check_component_map(run, tree, tree.method(vi, "to"), VECTOR + ".to",
-                        lambda e, v, pn: norm(e) == "%s.to(%s)" % (v, pn[1]), "v.to(u) converts every component to u")
-    check_component_map(run, tree, tree.method(vi, "reshape"), VECTOR + ".reshape",
-                        lambda e, v, pn: norm(e) == "%s.reshape(*%s)" % (v, tree.method(vi, "reshape").node.args.vararg.arg),
-                        "v.reshape reshapes every component")
-    check_component_map(run, tree, tree.method(vi, "__getitem__"), VECTOR + ".__getitem__",
-                        lambda e, v, pn: isinstance(e, ast.Subscript) and is_name(e.value, v) and is_name(e.slice, pn[1]),
-                        "v[idx] indexes every component with idx")
-    # numpy dispatch: every branch iterates over all components
-    fi = tree.method(vi, "_wrap_numpy")
-    run.analysed(fi)
-    n_branches = 0
-    for n in walk_no_nested(fi.node):
-        if isinstance(n, ast.Assign) and isinstance(n.value, ast.DictComp):
-            dc = n.value
-            g = dc.generators[0]
-            n_branches += 1
-            ok = norm(g.iter).endswith("._xyz.items()") and not g.ifs and len(dc.generators) == 1 and any(
-                isinstance(c, ast.Call) and is_name(c.func, params(fi)[1]) for c in ast.walk(dc.value))
-            run.ob("%s._wrap_numpy::branch%d" % (VECTOR, n_branches), ok, fi.where(n),
-                   "numpy dispatch case maps func over %s" % norm(g.iter), "np.<f>(v) ignores a component")
-    if n_branches < 3:
-        run.unresolved(VECTOR + "._wrap_numpy", fi.where(), "expected 3 dispatch cases, found %d" % n_branches)
+    run.rule("C09.R2", "component-count gate; unary/mapping methods and the numpy dispatch act on every component; nvec; norm not cached",
+             "D7 fold (ModelEval)", "", floor=18)
+    cf.check_vector_unary_and_maps(run, tree)
+    cf.check_vector_nvec(run, tree)
+    cf.check_vector_norm_fresh(run, tree)
+    cf.check_vector_wrap_numpy(run, tree)
 
 
 def _run_method(tree, qual, args, zero=None):
